@@ -251,6 +251,8 @@ func runHistory(rng *rand.Rand, prof histProfile, w *Writer, suite string) {
 	for _, a := range h.apps {
 		apps = append(apps, fmt.Sprintf("%x", uint64(a.ToInt64())))
 	}
+	h.events = append(h.events, "I")
+	h.obs = append(h.obs, "I "+h.dumpAll())
 	nev := prof.minEv + rng.Intn(prof.maxEv-prof.minEv+1)
 	total := prof.wUplink + prof.wCorrupt + prof.wJoin + prof.wSubmit + prof.wReplay
 	for e := 0; e < nev; e++ {
@@ -272,7 +274,21 @@ func runHistory(rng *rand.Rand, prof histProfile, w *Writer, suite string) {
 				fcnt += uint16(1 + rng.Intn(5)) // lost frames
 			case 1:
 				if fcnt > 0 {
-					fcnt -= uint16(1 + rng.Intn(int(fcnt)%7+1)) // regression
+					switch rng.Intn(3) {
+					case 0:
+						fcnt -= uint16(1 + rng.Intn(int(fcnt)%7+1)) // small regression
+					case 1:
+						fcnt = uint16(rng.Intn(int(fcnt))) // any older counter
+					default:
+						fcnt = uint16(rng.Intn(3)) // restart from the beginning
+					}
+				}
+			case 2:
+				if rng.Intn(3) == 0 {
+					fcnt = []uint16{32768, 40000, 65534, 65535}[rng.Intn(4)] // far ahead
+					if fcnt < d.fcnt {
+						fcnt = d.fcnt
+					}
 				}
 			}
 			confirmed := prof.confirmedOnly || rng.Intn(3) == 0
@@ -285,6 +301,9 @@ func runHistory(rng *rand.Rand, prof histProfile, w *Writer, suite string) {
 			var fopts []byte
 			if rng.Intn(4) == 0 {
 				fopts = genOptBytes(rng, true, rng.Intn(16))
+			}
+			if 13+len(fopts)+plen > 255 { // a LoRa PHY payload is at most 255 bytes
+				plen = 255 - 13 - len(fopts)
 			}
 			payload := randBytes(rng, plen)
 			if rng.Intn(20) == 0 {
